@@ -407,7 +407,8 @@ class Text(JupyterMixin):
         if offset < 0:
             offset = len(self) + offset
 
-        get_style = console.get_style
+        # (a style name the theme does not know styles nothing, as when the text is rendered)
+        get_style = partial(console.get_style, default=Style.null())
         style = get_style(self.style).copy()
         for start, end, span_style in self._spans:
             if offset >= start and offset < end:
